@@ -428,6 +428,32 @@ func parseMigrator(name string, expr ast.Expr, what string, consts map[string]in
 	return e
 }
 
+// intConst reads `name = <integer literal>` from a const declaration of the file
+func intConst(f *ast.File, path, name string) int {
+	for _, d := range f.Decls {
+		gd, ok := d.(*ast.GenDecl)
+		if !ok || gd.Tok != token.CONST {
+			continue
+		}
+		for _, sp := range gd.Specs {
+			vs := sp.(*ast.ValueSpec)
+			for i, n := range vs.Names {
+				if n.Name == name && i < len(vs.Values) {
+					if bl, ok := vs.Values[i].(*ast.BasicLit); ok && bl.Kind == token.INT {
+						v, err := strconv.Atoi(bl.Value)
+						if err == nil {
+							return v
+						}
+					}
+					fatal("%s: constant %s is not an integer literal", path, name)
+				}
+			}
+		}
+	}
+	fatal("%s: constant %s not found", path, name)
+	return 0
+}
+
 func extractTable(repo string, consts map[string]int) []entry {
 	path := filepath.Join(repo, "flows/definition/legacy/expressions/functions.go")
 	_, f := parseFile(path)
@@ -680,6 +706,20 @@ func main() {
 	}
 	sb.WriteString("].\n\n")
 	fmt.Fprintf(&sb, "(* functions.go paramDecremented: `if asInt < 0 { return param }` present? *)\nDefinition decremented_keeps_negative : bool := %v.\n\n", keepsNeg)
+	bpath := filepath.Join(*repo, "excellent/base.go")
+	_, bf := parseFile(bpath)
+	limits := [][2]any{
+		{"max_expression_tokens", intConst(mf, mpath, "maxExpressionTokens")},
+		{"max_expression_nesting", intConst(mf, mpath, "maxExpressionNesting")},
+		{"max_migrated_growth", intConst(mf, mpath, "maxMigratedGrowth")},
+		{"max_migrated_slack", intConst(mf, mpath, "maxMigratedSlack")},
+		{"max_parse_depth", intConst(bf, bpath, "MaxParseDepth")},
+	}
+	sb.WriteString("(* migrate.go: maxExpressionTokens, maxExpressionNesting, maxMigratedGrowth, maxMigratedSlack; excellent/base.go: MaxParseDepth *)\n")
+	for _, l := range limits {
+		fmt.Fprintf(&sb, "Definition %s : nat := %d%%nat.\n", l[0], l[1])
+	}
+	sb.WriteString("\n")
 	fmt.Fprintf(&sb, "(* migrate.go: func separateFrom(wrapped, following) present? *)\nDefinition separates_identifiers : bool := %v.\n\n", separates)
 	sb.WriteString("(* visitor.go: const ( precConcatenation = iota + 1; ... ) *)\n")
 	for _, n := range precNames {
